@@ -97,3 +97,21 @@ LEVEL_NOTE = ('trusted: Coq kernel; hand transcription coq/Model/Loader.v at the
               'context of their own (4807949).  Open known finding: stale object-stream member')
 TECHNIQUE = ('Coq: invariants over the three passes of parse_objects, induction over the /Prev chain, counting argument for '
              'termination; differential correspondence model vs implementation on rendered files; independent python oracle (resolve)')
+
+
+# Added by the coordinator: the end-to-end bytes theorem for incremental updates with classic tables
+# (coq/Properties/C04b.v: C04_bytes_classic — load_bytes (render_history_classic h L) = Loaded with exactly resolve_h h and
+# the newest root; C04_bytes_prev_cycle / _oob) is built by this check; its model load_bytes is compared with the real
+# parse_data on files given as bytes only in the family C03B (multi-revision files included).
+COQ_EXTRA = ['Properties/C04b.v']
+DELEGATES = [('C03B', 300)]
+
+
+def delegate_oracle(did, case, obs, prof):
+    if obs == 'rejected' or obs.startswith('loaded '):
+        return None
+    return 'loader did not return: "%s"' % obs
+
+
+def delegate_nontrivial(did, case, obs):
+    return obs.startswith('loaded ')
